@@ -47,7 +47,7 @@ class Minimiser:
             raise _T()
 
         old = signal.signal(signal.SIGVTALRM, on_alarm)
-        signal.setitimer(signal.ITIMER_VIRTUAL, float(getattr(self.mod, "RUN_CPU_LIMIT_S", 120.0)))
+        signal.setitimer(signal.ITIMER_VIRTUAL, float(getattr(self.mod, "RUN_CPU_LIMIT_S", 240.0)))
         try:
             return self.mod.execute(scn)
         except _T:
